@@ -104,6 +104,14 @@ impl StructParser {
         let fields = item_enum
             .variants
             .iter()
+            // A variant marked #[serde(skip)] is never written and never read, like a skipped
+            // field: it is not one of the values the frontend sees
+            .filter(|variant| {
+                !self
+                    .serde_parser
+                    .parse_field_serde_attrs(&variant.attrs)
+                    .skip
+            })
             .map(|variant| {
                 let variant_name = variant.ident.unraw().to_string();
 
